@@ -88,6 +88,58 @@ type extGen struct {
 	// charsetNamesOn: this run registers extensions named like the charset-bearing
 	// built-ins; it then never looks those three names up nor attaches through them.
 	charsetNamesOn bool
+	// collideOn: this run lets formats share their type AND file extension: an
+	// extension may repeat those of an earlier extension hanging somewhere else, or
+	// those of a built-in format (a more specific JSON registered on the root, ...).
+	// Such names are ambiguous for Lookup (which of the equally named nodes it reaches
+	// first depends on the built-in layout): they are never looked up and never serve
+	// as a parent handle in that run - decided when the first carrier is created.
+	collideOn  bool
+	ambiguous  map[string]bool
+	twinnable  []*model.Ext
+	builtinDup []string // built-in names reserved for duplication in this run
+}
+
+// bigLimit draws a limit far above every input: code paths that size, pool or
+// grow buffers by the limit (thresholds at 64 KiB, 1 MiB, 16 MiB, ...) are only
+// entered then. Bounded by what a limit-sized allocation costs per call.
+func bigLimit(r *core.Rand) uint32 {
+	return []uint32{65537, 1<<20 + 1, 1<<20 + 1, 1<<24 + 1, 1<<24 + 1, 1<<24 + 1, 1 << 25, 1<<26 + 7, 1<<27 + 3}[r.Intn(9)]
+}
+
+// builtinDupMenu are built-in formats an extension may be named after in a collide run.
+var builtinDupMenu = []string{"application/json", "application/zip", "image/png", "application/pdf", "text/csv", "application/gzip", "image/svg+xml", "application/x-ole-storage", "application/geo+json"}
+
+// setCollide switches the collide mode on and reserves one or two built-in names.
+func (g *extGen) setCollide() {
+	g.collideOn = true
+	g.ambiguous = map[string]bool{}
+	for i, n := 0, g.r.Range(1, 2); i < n; i++ {
+		nm := builtinDupMenu[g.r.Intn(len(builtinDupMenu))]
+		if !g.ambiguous[nm] {
+			g.ambiguous[nm] = true
+			g.builtinDup = append(g.builtinDup, nm)
+		}
+	}
+}
+
+// mayLookup says whether a name may be given to Lookup (or used to find a parent) in this run.
+func (g *extGen) mayLookup(name string) bool {
+	// every name may be looked up: the model knows which of several equally named
+	// nodes Lookup's depth-first search reaches first (and accepts either where
+	// that depends on the order of two built-in siblings)
+	return true
+}
+
+// lookupNames are the names of an extension that may be given to Lookup.
+func (g *extGen) lookupNames(e *model.Ext) []string {
+	var out []string
+	for _, n := range e.Names() {
+		if g.mayLookup(n) {
+			out = append(out, n)
+		}
+	}
+	return out
 }
 
 func (g *extGen) pred(target []string) model.Pred {
@@ -158,7 +210,7 @@ func (g *extGen) ext() *model.Ext {
 		p := g.made[g.r.Intn(len(g.made))]
 		var names []string
 		for _, nm := range p.Names() {
-			if !g.dupName[nm] {
+			if !g.dupName[nm] && !g.ambiguous[nm] {
 				names = append(names, nm)
 			}
 		}
@@ -206,10 +258,26 @@ func (g *extGen) ext() *model.Ext {
 	}
 	if !attached {
 		p := parents[g.r.Intn(len(parents))]
-		for g.charsetNamesOn && lib.IsCharsetName(p.Name) {
+		for (g.charsetNamesOn && lib.IsCharsetName(p.Name)) || g.ambiguous[p.Name] {
 			p = parents[g.r.Intn(len(parents))]
 		}
 		e.Parent, target = p.Name, p.Fams
+	}
+	twin := false
+	if g.collideOn && dupOf == nil && !g.dupName[e.Mime] && g.r.Chance(1, 3) {
+		if len(g.twinnable) > 0 && g.r.Chance(1, 2) {
+			// same type, same file extension (maybe same aliases) as an earlier extension, wherever that one hangs
+			q := g.twinnable[g.r.Intn(len(g.twinnable))]
+			e.Mime, e.Extension, twin = q.Mime, q.Extension, true
+			if g.r.Chance(1, 2) {
+				dupOf = q
+			}
+		} else if len(g.builtinDup) > 0 {
+			nm := g.builtinDup[g.r.Intn(len(g.builtinDup))]
+			if b := lib.LB(nm); !b.Nil && len(b.Chain) > 0 {
+				e.Mime, e.Extension, twin = nm, b.Chain[0].Ext, true
+			}
+		}
 	}
 	e.Pred = g.pred(target)
 	if dupOf != nil {
@@ -223,6 +291,34 @@ func (g *extGen) ext() *model.Ext {
 	} else {
 		for j, n := 0, g.r.Intn(4); j < n; j++ {
 			e.Aliases = append(e.Aliases, fmt.Sprintf("x-verif/a%d-%d", id, j))
+		}
+		if g.collideOn && g.r.Chance(1, 4) {
+			// an alias that is byte-equal to the type of another format
+			var nm string
+			if len(g.twinnable) > 0 && g.r.Chance(1, 2) {
+				nm = g.twinnable[g.r.Intn(len(g.twinnable))].Mime
+			} else if len(g.builtinDup) > 0 {
+				nm = g.builtinDup[g.r.Intn(len(g.builtinDup))]
+			}
+			if nm != "" && nm != e.Mime {
+				if len(e.Aliases) == 0 {
+					e.Aliases = append(e.Aliases, nm)
+				} else {
+					e.Aliases[g.r.Intn(len(e.Aliases))] = nm
+				}
+			}
+		}
+	}
+	if g.collideOn && !twin && dupOf == nil && !attachedAsParentName(g, e) && g.r.Chance(1, 4) {
+		// others may be named after this one later: its names are out of bounds for Lookup from the start
+		for _, nm := range e.Names() {
+			g.ambiguous[nm] = true
+		}
+		g.twinnable = append(g.twinnable, e)
+	}
+	if twin {
+		for _, nm := range e.Names() {
+			g.ambiguous[nm] = true
 		}
 	}
 	e.SpareCap = []int{0, 0, 1, 2, 8}[g.r.Intn(5)]
@@ -250,6 +346,9 @@ func randDelivery(r *core.Rand, n int, faultChance int) *simio.Delivery {
 	d := &simio.Delivery{FaultAt: -1, Chunks: deliveryMenu[r.Intn(len(deliveryMenu))]}
 	if n > 400 && len(d.Chunks) > 0 && d.Chunks[0] < 7 {
 		d.Chunks = []int{64, 500}
+	}
+	if n > 1<<20 && len(d.Chunks) > 0 {
+		d.Chunks = []int{n / 512, 4096}
 	}
 	d.EOFWithData = r.Chance(1, 4)
 	d.Scribble = r.Chance(1, 6)
@@ -340,14 +439,12 @@ func (g *extGen) acceptingOn(parent string, on *model.Ext, x []byte) *model.Ext 
 	return e
 }
 
-// lookupNames are the names of an extension that may be given to Lookup in a
-// generated operation: everything except a re-used charset-bearing built-in name.
-func lookupNames(e *model.Ext) []string {
-	var out []string
-	for _, n := range e.Names() {
-		if !lib.IsCharsetName(n) {
-			out = append(out, n)
+// attachedAsParentName reports whether one of e's names already serves as a parent handle.
+func attachedAsParentName(g *extGen, e *model.Ext) bool {
+	for _, nm := range e.Names() {
+		if g.parentName[nm] || g.dupName[nm] {
+			return true
 		}
 	}
-	return out
+	return false
 }
